@@ -8,6 +8,16 @@ ORACLE = "c12"
 HARNESS_BIN = "c12"
 NCASES = {"quick": 7000, "thorough": 120000}
 CASE_TIMEOUT = {"quick": 30, "thorough": 120}
+# every case runs against dashu-base with and without the std feature (the log2 estimator differs)
+CONFIGS = ["default", "nostd"]
+
+
+def canon_answer(ans):
+    """answers must agree between the builds, except the f32 bounds (marked ~) of the two estimators"""
+    toks = ans.split()
+    if any(t.startswith("~") for t in toks):
+        return "ok log2-bounds"
+    return ans
 
 LEVEL_TEXT = ("Machine-checked Coq theorems: complete certificates (a checked gcd/Bezout, root, root-with-remainder, integer-logarithm "
               "or remove answer IS the gcd / truncated root / floor logarithm / full power), as-is models of the Newton n-th root "
